@@ -290,6 +290,14 @@ def run(idx, rep, tier):
                 rep.refuted("key-persistence", f"{fn_role(f)}:{base}.key", f"`{ast.unparse(n)[:80]}` writes a new key into the object passed as `{base}`: a second call with the same algorithm object "
                             "and the same key draws different probes, so the result is no longer a function of (operator, key)", detail="written-back", locs=[idx.loc(f.module, n)])
     rep.count("key-persistence", proved=1 if not n_store else 0)
+    # ------------------------------------------------------------ the iteration cap / tolerance / key given to Auto reach the estimator
+    from sa.autorule import option_forwarding
+    from sa.resolver import Resolver
+    res_ = Resolver(idx, frozenset(idx.core_modules()))
+    for rule in res_.rules_of("diag"):
+        if len(rule.params) > 2 and rule.params[2][1] == frozenset({"Auto"}):
+            option_forwarding(idx, rep, rule, rule.func, rule.params[2][0])
+    rep.floor("auto-options", 1)
     rep.floor("rng-bracket", 2)
     rep.floor("key-chain", 6)
     rep.floor("key-derivation", 4)
